@@ -295,6 +295,13 @@ func Decode[T any](c Cursor, obj Object, decode func(Cursor, Object, bool) (T, e
 		}
 		key := extractorKey{ref: ref, tp: tp}
 		if v, ok := x.cacheGet(key); ok {
+			// The value is also published under the references followed so
+			// far, so that every reference of the chain leads to the same Go
+			// value from now on (should one of them have received a value in
+			// the meantime, that value is adopted instead).
+			if len(refs) > 0 {
+				v = x.cacheStoreOrLoad(refs, tp, v)
+			}
 			// a cached nil interface result (T is an interface type and the
 			// decoder returned nil) is an untyped nil here; the comma-ok form
 			// yields the zero value instead of panicking on the assertion
